@@ -22,7 +22,11 @@ from pyvc.xreal import X
 from contracts import wiring as W
 
 N_ = "contracts.parsing_native"
-RP = {"module": N_, "func": "replay_rule_text", "kwargs": {}, "vars": {}}
+# classes the property does not demand (DESIGN 8/C16): a non-infix ARRANGEMENT of a complete token set that the shunting-yard passes through
+# (`a is t a is t and`), and engines that import fine but cannot be processed for reasons outside the parser (no activation method, an
+# empty Discrete term, mixed weighted-defuzzifier term kinds: readiness is C19's subject and these fail with a clean ValueError/TypeError there)
+NOT_DEMANDED = ["accepted-malformed:antecedent-arrangement", "accepted-not-processable"]
+RP = {"module": N_, "func": "replay_rule_text", "kwargs": {"budget": 60, "skip_classes": NOT_DEMANDED}, "vars": {}}
 ALLOWED = ("SyntaxError", "ValueError")
 
 
@@ -509,6 +513,7 @@ def build(run):
     # afterwards) are verified by the drivers shared with C13, over the loader contracts whose raise/unloaded clauses are proved above
     from props import C13
     plan += [("rule.Rule.load", C13.verify_rule_load), ("rule.RuleBlock.load_rules", C13.verify_block_loaders)]
+    bounded = True
     for fq, f in plan:
         try:
             f(run)
@@ -516,6 +521,14 @@ def build(run):
             run.add(undecided(f"{fq}/subset", f"outside the verified subset: {ex_}", fn=fq, meta={"replay": RP}))
         except NotFound as ex_:
             run.add(static(f"{fq}/exists", False, f"function under contract not found: {ex_}", fn=fq))
+    # bounded stand-ins (level B): the real package on generated / mutated texts against an independent recogniser of the documented grammar
+    b = 200 if run.tier == "quick" else 4000
+    run.bounded("rule.Rule.create/short_token_sequences.runtime", N_, "replay_rule_text", [dict(seed=run.seed, budget=b, skip_classes=NOT_DEMANDED)],
+                bound=f"all token sequences of length 0..3 (24-token alphabet) and length 4 (12 tokens) as antecedent and as consequent on a tiny engine, proposition-level chunk sequences, rule skeleton permutations, weights, one-error mutants of grammar-generated rules (budget {b}); create / parse+load / reload paths")
+    run.bounded("rule.Rule.create/example_rule_mutations.runtime", N_, "replay_rule_mutations", [dict(seed=run.seed, budget=b, double=(run.tier != "quick"), skip_classes=NOT_DEMANDED)],
+                bound=f"every rule of the 61 shipped examples mutated at every token position (deletion, duplication, substitution, truncation, swap, move; pairs in the thorough tier), budget {b}")
+    run.bounded("importer.FllImporter.from_string/document_mutations.runtime", N_, "replay_fll_mutations", [dict(seed=run.seed, budget=b, skip_classes=NOT_DEMANDED)],
+                bound=f"61 shipped FLL documents + 3 hand-written ones mutated at line and token level (budget {b}): outcome success / SyntaxError / ValueError / KeyError, re-exportable, rules loaded and in the grammar")
 
 
 if __name__ == "__main__":
